@@ -9,7 +9,8 @@
    argument, not a result); the run-time side of that clause is checked on the real objects by the harness. *)
 From Coq Require Import ZArith List Bool Arith Sorted.
 From Batchie Require Import Lib.Sexp Model.Encode Model.Screen Model.Views
-  Proofs.C14Defs Proofs.C14Lists Proofs.C14Unique Proofs.C14Views Proofs.C14ToScreen Proofs.C14Closure.
+  Proofs.C14Defs Proofs.C14Lists Proofs.C14Unique Proofs.C14Views Proofs.C14ToScreen Proofs.C14Closure
+  Generated.SrcViews Proofs.C14Source.
 Import ListNotations.
 Open Scope nat_scope.
 
@@ -216,6 +217,110 @@ Theorem C14_closure_ref_sorted : forall ps e v, Forall screen_wf ps -> eval ps e
 Proof. exact ref_sorted. Qed.
 Print Assumptions C14_closure_ref_sorted.
 
+(* ================= the model is the source =================
+   Generated/SrcViews.v is re-translated from /repo's src/batchie/data.py on every run (harness/py2gal.py, configurations
+   C14_* of harness/src_functions.py).  Each theorem: the translation of the WHOLE method equals the model's function, for
+   ALL inputs, with no side condition.  A Screen object is (identity tag, contents) [pyscreen]; a ScreenSubset / Plate
+   object is a [view]; an array handed in as a selection is (dtype is bool, truth values) [anyarray]. *)
+(* ScreenSubset.__init__, which ScreenSubset(...) and Plate(...) run (Plate defines none): the dtype check, the length
+   check against screen.size, then the object holding (screen, selection_vector) - whatever the fresh instance held *)
+Theorem C14_model_is_source_init : forall (self : view) (s : pyscreen) (sv : anyarray),
+  src_view_init self s sv = mk_view (fst s) (snd s) (fst sv) (snd sv).
+Proof. exact src_view_init_is_model. Qed.
+Print Assumptions C14_model_is_source_init.
+
+(* ScreenBase.size on a Screen object and on a ScreenSubset object *)
+Theorem C14_model_is_source_size :
+  (forall s : pyscreen, src_screen_size s = Ok (Z.of_nat (screen_size (snd s)))) /\
+  (forall v : view, src_view_size v = Ok (Z.of_nat (view_size v))).
+Proof. exact (conj src_screen_size_is_model src_view_size_is_model). Qed.
+Print Assumptions C14_model_is_source_size.
+
+(* ScreenSubset.subset: dtype check, size check against self.size, copy of the selection vector, np.where, the scatter of
+   the inner mask at the true positions, ScreenSubset(self.screen, result) *)
+Theorem C14_model_is_source_subset : forall (v : view) (sv : anyarray),
+  src_view_subset v sv = view_subset v (fst sv) (snd sv).
+Proof. exact src_view_subset_is_model. Qed.
+Print Assumptions C14_model_is_source_subset.
+
+(* ScreenSubset.combine: `other.screen is not self.screen` (the parents' identities) refuses, else Plate(self.screen, a | b) *)
+Theorem C14_model_is_source_combine : forall a b : view, src_view_combine a b = view_combine a b.
+Proof. exact src_view_combine_is_model. Qed.
+Print Assumptions C14_model_is_source_combine.
+
+(* ScreenSubset.concat: one argument -> that argument itself; none -> refused; else the loop (identity check against the
+   first argument's parent, `|` accumulation starting from None) and Plate(first.screen, accumulated) *)
+Theorem C14_model_is_source_concat : forall vs : list view, src_view_concat vs = view_concat vs.
+Proof. exact src_view_concat_is_model. Qed.
+Print Assumptions C14_model_is_source_concat.
+
+(* ScreenSubset.invert: Plate(self.screen, ~self.selection_vector) *)
+Theorem C14_model_is_source_invert : forall v : view, src_view_invert v = view_invert v.
+Proof. exact src_view_invert_is_model. Qed.
+Print Assumptions C14_model_is_source_invert.
+
+(* Screen.subset *)
+Theorem C14_model_is_source_screen_subset : forall (s : pyscreen) (sv : anyarray),
+  src_screen_subset s sv = screen_subset (fst s) (snd s) (fst sv) (snd sv).
+Proof. exact src_screen_subset_is_model. Qed.
+Print Assumptions C14_model_is_source_screen_subset.
+
+(* Screen.subset_observed / subset_unobserved: None (falling off the end) iff np.any of the mask / of its negation is
+   false, else self.subset(that mask).  [opt_result] turns the model's `option (result view)` into the translation's
+   `result (option view)` *)
+Theorem C14_model_is_source_subset_observed : forall s : pyscreen,
+  src_subset_observed s = opt_result (subset_observed (fst s) (snd s)).
+Proof. exact src_subset_observed_is_model. Qed.
+Print Assumptions C14_model_is_source_subset_observed.
+
+Theorem C14_model_is_source_subset_unobserved : forall s : pyscreen,
+  src_subset_unobserved s = opt_result (subset_unobserved (fst s) (snd s)).
+Proof. exact src_subset_unobserved_is_model. Qed.
+Print Assumptions C14_model_is_source_subset_unobserved.
+
+(* Screen.get_plate: Plate(self, self.plate_ids == plate_id) *)
+Theorem C14_model_is_source_get_plate : forall (s : pyscreen) (pid : Z),
+  src_get_plate s pid = get_plate (fst s) (snd s) pid.
+Proof. exact src_get_plate_is_model. Qed.
+Print Assumptions C14_model_is_source_get_plate.
+
+(* ScreenBase.unique_plate_ids (np.unique of the plate ids) and Screen.plates ([self.get_plate(x) for x in those]) *)
+Theorem C14_model_is_source_plates :
+  (forall s : pyscreen, src_unique_plate_ids s = Ok (sort_uniq Z.compare (s_pids (snd s)))) /\
+  (forall s : pyscreen, src_plates s = plates (fst s) (snd s)).
+Proof. exact (conj src_unique_plate_ids_is_model src_plates_is_model). Qed.
+Print Assumptions C14_model_is_source_plates.
+
+(* ScreenSubset.to_screen: Screen(...) with exactly the keywords treatment_names, treatment_doses, observations,
+   observation_mask, sample_names, plate_names (each the parent's array at the selected rows, copied) and
+   control_treatment_name - and no mappings *)
+Theorem C14_model_is_source_to_screen : forall v : view, src_to_screen v = to_screen v.
+Proof. exact src_to_screen_is_model. Qed.
+Print Assumptions C14_model_is_source_to_screen.
+
+(* the attribute properties of ScreenSubset *)
+Theorem C14_model_is_source_attributes : forall v : view,
+  src_view_plate_ids v = Ok (view_pids v) /\
+  src_view_sample_ids v = Ok (view_sids v) /\
+  src_view_treatment_ids v = Ok (view_tids v) /\
+  src_view_sample_names v = Ok (view_sample_names v) /\
+  src_view_observations v = Ok (view_obs v) /\
+  src_view_observation_mask v = Ok (view_mask v) /\
+  src_view_treatment_names v = Ok (s_arity (v_parent v), map (map fst) (view_treats v)) /\
+  src_view_treatment_doses v = Ok (s_arity (v_parent v), map (map snd) (view_treats v)) /\
+  src_view_control_treatment_name v = Ok (s_ctrl (v_parent v)) /\
+  src_view_treatment_mapping v = Ok (s_tmap (v_parent v)) /\
+  src_view_sample_mapping v = Ok (s_smap (v_parent v)) /\
+  src_view_plate_mapping v = Ok (s_pmap (v_parent v)).
+Proof. exact src_view_attrs_are_model. Qed.
+Print Assumptions C14_model_is_source_attributes.
+
+(* ScreenSubset.single_treatment_effects, for any value of the parent's property: None propagates, else the selected rows *)
+Theorem C14_model_is_source_single_treatment_effects : forall (E : Type) (v : view) (parent_value : option (list E)),
+  src_view_single_treatment_effects E v parent_value = Ok (view_single_effects v parent_value).
+Proof. exact src_view_single_effects_is_model. Qed.
+Print Assumptions C14_model_is_source_single_treatment_effects.
+
 (* ================= non-vacuity: concrete instances by computation ================= *)
 Definition ex_row (s p : Z) (t1 d1 t2 d2 : Z) (o : Z) (m : bool) : row :=
   {| r_sample := [s]; r_plate := [p]; r_treats := [([t1], d1); ([t2], d2)]; r_obs := o; r_mask := m |}.
@@ -249,6 +354,16 @@ Example C14_ex_subset_positions :
   sel_of (eval [ex_screen] (Subset (Base 0 true [true; false; true; true; false; true]) true [false; true; false; true]))
   = Some [false; false; true; false; false; true].
 Proof. vm_compute. reflexivity. Qed.
+(* the same through the translated source: Screen.subset, then ScreenSubset.subset; and the translated concat refuses
+   views of two parent objects with equal contents *)
+Example C14_ex_source_runs :
+  sel_of (dor v <- src_screen_subset (0%Z, ex_screen) (true, [true; false; true; true; false; true]);
+          src_view_subset v (true, [false; true; false; true]))
+  = Some [false; false; true; false; false; true] /\
+  err_of (dor a <- src_screen_subset (0%Z, ex_screen) (true, repeat true 6);
+          dor b <- src_screen_subset (1%Z, ex_screen) (true, repeat true 6);
+          src_view_concat [a; a; b]) = Some 23%Z.
+Proof. vm_compute. split; reflexivity. Qed.
 Example C14_ex_unique_first :
   sel_of (eval [ex_screen] (UniqueS 0)) = Some [true; true; true; false; false; false]
   /\ select_unique [[3; 1; 3; 1; 2; 3]; [0; 5; 0; 5; 5; 1]]%Z = Ok [true; true; false; false; true; true].
